@@ -311,6 +311,14 @@ class ModuleInfo:
         for parent in ast.walk(self.tree):
             for ch in ast.iter_child_nodes(parent):
                 ch._parent = parent  # type: ignore[attr-defined]
+        # evaluation-order index (positions of spliced code are those of the call site)
+        k = 0
+        stack: List[ast.AST] = [self.tree]
+        while stack:
+            n = stack.pop()
+            n._ord = k  # type: ignore[attr-defined]
+            k += 1
+            stack.extend(reversed(list(ast.iter_child_nodes(n))))
         self.classes: Dict[str, ClassInfo] = {}
         self.functions: Dict[str, FuncInfo] = {}
         self.imports: Dict[str, Tuple[str, str]] = {}  # local -> (module, name)
@@ -343,6 +351,8 @@ class ModuleInfo:
                 elif isinstance(st, ast.Assign) and len(st.targets) == 1 and \
                         isinstance(st.targets[0], ast.Name):
                     self.assigns[st.targets[0].id] = st.value
+                elif isinstance(st, ast.AnnAssign) and isinstance(st.target, ast.Name) and st.value is not None:
+                    self.assigns[st.target.id] = st.value
                 elif isinstance(st, ast.If):
                     # ``if typing.TYPE_CHECKING:`` imports
                     visit(st.body)
